@@ -35,7 +35,7 @@ import (
 )
 
 func init() {
-	hx.Register(&hx.Stream{Name: "search", Gen: genSearchModel, Run: runSearchModel})
+	hx.Register(&hx.Stream{Name: "search", Gen: genSearchModel, Run: runSearchModel, Shrink: shrinkSearch, Describe: describeSearch})
 }
 
 type smReq struct {
